@@ -250,6 +250,16 @@ class SymB:
                     d = None
                 if d is not None:
                     STATS["shortcut"] += 1
+                    # decide the alternative now (one query) instead of re-executing the whole path later
+                    alt = z3.Not(t) if d else t
+                    ra, _sa = seeded_check(c, c.all() + [alt], attempts=1)
+                    c.prefix.append(d)
+                    c.done.append(ra == "unsat")
+                    if ra == "unknown":
+                        c.notes.append("branch alternative undecided (unknown)")
+                    c.pos += 1
+                    c.pc.append(t if d else z3.Not(t))
+                    return d
             if d is None:
                 r, s = seeded_check(c, c.all() + [t])
                 if r == "sat":
@@ -581,6 +591,15 @@ class Sym:
                 return r
             if dlt.n.is_const():
                 continue
+            # cheap refutation: if the current model already separates the two arguments they are not
+            # provably equal, no query needed
+            if c._model_ok():
+                try:
+                    mv = c.model.eval(dlt.n.z3() != 0, model_completion=True)
+                    if z3.is_true(mv):
+                        continue
+                except z3.Z3Exception:
+                    pass
             res, _ = check(c.all() + [dlt.n.z3() != 0], rlimit=RLIMIT // 8)
             if res == "unsat":
                 return r
